@@ -63,10 +63,21 @@ import (
 
 // ------------------------------------------------------------------ supervisor
 
-var allStructures = []string{"alerts", "window", "metrics", "optracker", "stateless", "informers", "crdt"}
+var allStructures = []string{"alerts", "window", "metrics", "optracker", "stateless", "informers", "crdt", "trackerlife", "crdtlife", "clusterlife", "clusterearly"}
 
+// clusterearly (Cluster.Shutdown racing ready()) deadlocks on the unchanged tree (known finding K18b) and then costs two watchdog
+// periods: thorough tier and replays only
 func structuresFor(tier string) []string {
-	return allStructures
+	if tier == "thorough" {
+		return allStructures
+	}
+	var l []string
+	for _, n := range allStructures {
+		if n != "clusterearly" {
+			l = append(l, n)
+		}
+	}
+	return l
 }
 
 type childResult struct {
@@ -194,21 +205,23 @@ func structureOfLine(l string) []string {
 	case "idlist":
 		if len(f) > 1 {
 			switch f[1] {
-			case "statusall", "recoverall":
-				return []string{"stateless"}
+			case "statusall":
+				return []string{"stateless", "trackerlife", "clusterlife"}
+			case "recoverall":
+				return []string{"stateless", "trackerlife"}
 			case "getall", "filter":
 				return []string{"optracker"}
 			case "latestvalid", "peermetricall", "multiwindow":
 				return []string{"metrics", "window"}
 			case "crdtstate":
-				return []string{"crdt"}
+				return []string{"crdt", "crdtlife"}
 			}
 		}
 	case "pininfo":
 		if len(f) > 1 && (f[1] == "get" || f[1] == "getall" || f[1] == "filter") {
 			return []string{"optracker"}
 		}
-		return []string{"stateless", "optracker"}
+		return []string{"stateless", "optracker", "trackerlife", "clusterlife"}
 	case "soak":
 		if len(f) > 1 && known(f[1]) {
 			return []string{f[1]}
@@ -1264,6 +1277,14 @@ func child(name string, secs int) {
 		soakInformers(secs)
 	case "crdt":
 		soakCRDT(secs)
+	case "trackerlife":
+		soakTrackerLife(secs)
+	case "crdtlife":
+		soakCRDTLife(secs)
+	case "clusterlife":
+		soakClusterLife(secs, "clusterlife", true)
+	case "clusterearly":
+		soakClusterLife(secs, "clusterearly", false)
 	default:
 		fmt.Fprintln(os.Stderr, "unknown structure", name)
 		os.Exit(4)
